@@ -249,6 +249,14 @@ fn gen_size(dec: &mut Dec, profile: u32) -> usize {
         }
         3 => near(dec, 2 * 1024 * 1024, 64 * 1024),
         4 => (1usize << (10 + dec.choose(K::Arg, 15))) + dec.choose(K::Arg, 4096) as usize,
+        // the open-ended last tree bin: chunks of 12 MiB and more, small separators between them
+        7 => {
+            if dec.chance(K::Arg, 1, 3) {
+                16 + dec.choose(K::Arg, 2000) as usize
+            } else {
+                ((6 + dec.choose(K::Arg, 36) as usize) << 20) + 4096 * dec.choose(K::Arg, 512) as usize - dec.choose(K::Arg, 2) as usize * 4096
+            }
+        }
         _ => match dec.choose(K::Arg, 8) {
             0 => 1 + dec.choose(K::Arg, 24) as usize,
             1..=3 => 1 + dec.choose(K::Arg, 600) as usize,
@@ -660,14 +668,21 @@ struct Req {
 }
 
 struct Round {
+    /// small blocks allocated during the first round (after request `.0`) and kept until the end:
+    /// ordinary long-lived program state that keeps the heap from collapsing into one trimmed top
+    pins: Vec<(usize, usize)>,
     reqs: Vec<Req>,
+    /// (after request i, free block j < i): frees in the middle of the round
+    early_frees: Vec<(usize, usize)>,
     /// order in which the blocks of a round are freed (indices into reqs)
     free_order: Vec<usize>,
 }
 
 fn gen_round(dec: &mut Dec) -> Round {
-    let n = 1 + dec.choose(K::Op, 50) as usize;
-    let profile = dec.choose(K::Cfg, 7);
+    let profile = dec.choose(K::Cfg, 9).min(7);
+    let n = if profile == 7 { 2 + dec.choose(K::Op, 7) as usize } else { 1 + dec.choose(K::Op, 50) as usize };
+    let npins = *dec.pick(K::Cfg, &[0usize, 0, 1, 2, 3]);
+    let pins: Vec<(usize, usize)> = (0..npins).map(|_| (dec.choose(K::Arg, n as u32) as usize, 16 + dec.choose(K::Arg, 1000) as usize)).collect();
     let mut bigs = 0;
     let mut reqs = Vec::with_capacity(n);
     for _ in 0..n {
@@ -678,7 +693,7 @@ fn gen_round(dec: &mut Dec) -> Round {
                 size = 1 + size % 9000;
             }
         }
-        reqs.push(Req { size, align: gen_align(dec) });
+        reqs.push(Req { size, align: if profile == 7 { 1usize << dec.choose(K::Arg, 5) } else { gen_align(dec) } });
     }
     let mut free_order: Vec<usize> = (0..n).collect();
     match dec.choose(K::Cfg, 4) {
@@ -695,11 +710,31 @@ fn gen_round(dec: &mut Dec) -> Round {
             }
         }
     }
-    Round { reqs, free_order }
+    let mut early_frees = Vec::new();
+    let density = *dec.pick(K::Cfg, &[0u32, 0, 1, 2]);
+    if density > 0 {
+        for i in 1..n {
+            if dec.chance(K::Op, density, 4) {
+                early_frees.push((i, dec.choose(K::Arg, i as u32) as usize));
+                if dec.chance(K::Op, 1, 3) {
+                    early_frees.push((i, dec.choose(K::Arg, i as u32) as usize));
+                }
+            }
+        }
+    }
+    Round { pins, early_frees, reqs, free_order }
 }
 
 /// The growth oracle over the per-window maxima of the mapped byte total.
-pub(crate) fn growth_violation(windows: &[usize], m_end: usize, peak_live: usize, rounds: usize) -> Option<Violation> {
+pub(crate) fn growth_violation(windows: &[usize], m_end: usize, peak_live: usize, rounds: usize, arena_exhausted: bool) -> Option<Violation> {
+    // growth that ran into the end of the simulated address space stops growing: the plateau at
+    // the top is the same verdict
+    if arena_exhausted && m_end > ARENA / 2 && m_end > 3 * peak_live + (8 << 20) {
+        return Some(Violation {
+            sig: "footprint|unbounded-growth".into(),
+            detail: format!("mapped bytes grew until the simulated address space ({ARENA} bytes) was used up while the same allocate-then-free-everything round repeats: window maxima {windows:?} over {rounds} rounds, {m_end} bytes mapped at the end, peak live bytes {peak_live}"),
+        });
+    }
     if windows.len() < 5 {
         return None;
     }
@@ -736,9 +771,23 @@ fn run_footprint_single(dec: Dec, opts: &RunOpts, rounds: usize) -> RunOut {
             let wlen = (rounds / 8).max(1);
             let mut wmax = 0usize;
             let mut ptrs: Vec<usize> = vec![0; round.reqs.len()];
+            let mut pinned: Vec<usize> = Vec::new();
+            let mut pinned_bytes = 0usize;
             for r in 0..rounds {
-                let mut live = 0usize;
+                let mut live = pinned_bytes;
                 for (i, q) in round.reqs.iter().enumerate() {
+                    if r == 0 {
+                        for (after, sz) in &round.pins {
+                            if *after == i {
+                                let p = unsafe { a.malloc(*sz, 8) } as usize;
+                                if p != 0 {
+                                    pinned.push(p);
+                                    pinned_bytes += *sz;
+                                    live += *sz;
+                                }
+                            }
+                        }
+                    }
                     let p = unsafe { a.malloc(q.size, q.align) } as usize;
                     stats.allocs += 1;
                     if p == 0 {
@@ -754,6 +803,15 @@ fn run_footprint_single(dec: Dec, opts: &RunOpts, rounds: usize) -> RunOut {
                         live -= round.reqs[i - 1].size;
                         ptrs[i - 1] = 0;
                         stats.frees += 1;
+                    }
+                    // blocks given back in the middle of the round (holes between the live ones)
+                    for (after, j) in &round.early_frees {
+                        if *after == i && ptrs[*j] != 0 {
+                            unsafe { a.free(ptrs[*j] as *mut u8) };
+                            live -= round.reqs[*j].size;
+                            ptrs[*j] = 0;
+                            stats.frees += 1;
+                        }
                     }
                     peak_live = peak_live.max(live);
                     wmax = wmax.max(with_prov(|p| p.total));
@@ -782,7 +840,7 @@ fn run_footprint_single(dec: Dec, opts: &RunOpts, rounds: usize) -> RunOut {
             panic_v = Some(Violation { sig: format!("panic|{loc}"), detail: format!("allocator panicked at {loc}: {msg}") });
         }
     });
-    let gv = growth_violation(&windows, m_end, peak_live, rounds);
+    let gv = growth_violation(&windows, m_end, peak_live, rounds, with_prov(|p| p.n_exhausted) > 0);
     let sample = json!({"variant": "single-threaded rounds", "rounds": rounds, "requests_per_round": round.reqs.len(), "first_requests": round.reqs.iter().take(12).map(|q| json!([q.size, q.align])).collect::<Vec<_>>(), "churn": churn, "window_maxima_of_mapped_bytes": windows, "mapped_at_end": m_end, "peak_live_bytes": peak_live});
     let mut out = finish(&mut sim, &k, &stats, false, opts, sample, panic_v.or(gv));
     out.nontrivial = round.reqs.len() >= 3 && out.counters.get("probe.munmap_calls").copied().unwrap_or(0) + out.counters.get("probe.trim_by_mremap_shrink").copied().unwrap_or(0) >= 1;
@@ -847,7 +905,7 @@ fn run_footprint_threaded(dec: Dec, opts: &RunOpts, rounds: usize) -> RunOut {
     sched::run(&mut sim);
     let m_end = with_prov(|p| p.total);
     let w = windows.borrow().clone();
-    let gv = if sim.violation.is_none() { growth_violation(&w, m_end, peak_live.get(), rounds) } else { None };
+    let gv = if sim.violation.is_none() { growth_violation(&w, m_end, peak_live.get(), rounds, with_prov(|p| p.n_exhausted) > 0) } else { None };
     let sample = json!({"variant": "multi-threaded rounds through tiny_std::sync::Mutex<Dlmalloc>", "threads": nthreads, "rounds": rounds, "requests_per_round": nreq, "window_maxima_of_mapped_bytes": w, "mapped_at_end": m_end, "peak_live_bytes": peak_live.get()});
     let st = stats.borrow();
     let mut out = finish(&mut sim, &k, &st, true, opts, sample, gv);
